@@ -37,7 +37,11 @@ is_equivalent(const CPPParameterList &other) const {
     return false;
   }
   for (int i = 0; i < (int)_parameters.size(); ++i) {
-    if (!_parameters[i]->_type->is_equivalent(*other._parameters[i]->_type)) {
+    // Top-level cv-qualifiers of a parameter are not part of the function's
+    // type: f(const int) and f(int) declare the same function.
+    CPPType *type = _parameters[i]->_type->remove_cv();
+    CPPType *other_type = other._parameters[i]->_type->remove_cv();
+    if (!type->is_equivalent(*other_type)) {
       return false;
     }
   }
